@@ -3150,7 +3150,7 @@ where
                 if self.pid_pubrec.remove(&packet_id) {
                     self.store.erase(ResponsePacket::V5_0Pubrec, packet_id);
                     let reason_code = packet.reason_code();
-                    if reason_code.is_none() || reason_code.unwrap() == PubrecReasonCode::Success {
+                    if reason_code.is_none_or(|rc: PubrecReasonCode| rc.is_success()) {
                         if self.auto_pub_response && self.status == ConnectionStatus::Connected {
                             let pubrel = v5_0::GenericPubrel::<PacketIdType>::builder()
                                 .packet_id(packet_id)
